@@ -1,5 +1,5 @@
 (* C10 — refresh tokens are client-bound, never widen or extend the grant, and rotate. *)
-From Verif Require Import Base Scope Types Prog Pop Token Authorize System Config Run Monitors Fresh FreshHandlers OneShot HistProps C04Resources.
+From Verif Require Import Base Scope Types Prog Pop Token Authorize System Config Run Monitors Fresh FreshHandlers OneShot HistProps C04Resources C04Details.
 Local Open Scope N_scope.
 
 (* For every store and refresh request that yields tokens: the presented token indexes a stored
@@ -47,6 +47,30 @@ Theorem refresh_never_widens_resources : forall w n now r st t,
      forall x, In x (g_active_res g') -> In x (g_granted_res g')).
 Proof. exact C04Resources.refresh_never_widens_resources. Qed.
 Print Assumptions refresh_never_widens_resources.
+
+(* A refresh can narrow but never widen the authorization details (RFC 9396): for every store and refresh
+   request that yields tokens, the granted details of the re-saved grant are those of the grant
+   presented (so a later refresh may return to the full grant, never beyond it); with the
+   subset-by-equality compare function the details of the new token lie within the granted ones whenever
+   those of the old one did (which holds in every reachable state: Props/C04.v, details_within_grant);
+   whatever the compare function, every detail of the new token has a type the server supports or is one
+   of the granted details, whenever that held before (every reachable state: details_supported_or_granted);
+   and the response (authorization_details member, claim of a JWT access token) reports nothing but the
+   details of the new token. *)
+Theorem refresh_never_widens_details : forall w n now r st t,
+  snd (run_seq (refresh_grant w n now r) st) = OTokens t ->
+  exists g g',
+    find (fun g => ideq (g_refresh g) (t_refresh r)) (st_gsess st) = Some g /\
+    st_gsess (fst (run_seq (refresh_grant w n now r) st)) = put_gsess g' (st_gsess st) /\
+    g_id g' = g_id g /\ g_granted_details g' = g_granted_details g /\
+    (cf_details_cmp (w_cfg w) = CmpSubset ->
+     (forall d, In d (g_active_details g) -> In d (g_granted_details g)) ->
+     forall d, In d (g_active_details g') -> In d (g_granted_details g')) /\
+    ((forall d, In d (g_active_details g) -> In (ad_type d) (cf_auth_detail_types (w_cfg w)) \/ In d (g_granted_details g)) ->
+     forall d, In d (g_active_details g') -> In (ad_type d) (cf_auth_detail_types (w_cfg w)) \/ In d (g_granted_details g')) /\
+    (forall d, In d (tr_details t) \/ In d (tr_jwt_details t) -> In d (g_active_details g')).
+Proof. exact refresh_never_widens_details_all. Qed.
+Print Assumptions refresh_never_widens_details.
 
 (* Over every history: with rotation enabled, a refresh token through which a refresh succeeded is
    never accepted again (chains of any length, any interleaving with other operations). *)
